@@ -31,8 +31,7 @@ var (
 	fChild    = flag.Bool("child", false, "internal: do the work")
 	fSkip     = flag.Int("skip", 0, "internal: first input to process")
 	fRealtime = flag.Bool("realtime", false, "c07: unchanged files, real clock and timers")
-	fMaxPre   = flag.Int("maxpre", 2, "c07: preemption bound of the depth-first enumeration")
-	fBudget   = flag.Int("budget", 200, "c07: schedules per program (depth-first)")
+	fBudget   = flag.Int("budget", 200, "c07: schedules per program (priority orders x change points)")
 	fRandom   = flag.Int("random", 20, "c07: additional random schedules per program")
 	fNQ       = flag.Int("nq", 2, "c07: number of queries of the model (NQ)")
 	fNN       = flag.Int("nn", 2, "c07: number of responder names of the model (NN)")
